@@ -358,6 +358,7 @@ class SafeLearner(Learner):
             pred   = pred[:-1] if self._pred_kwargs else pred
 
             if self._pred_format.endswith('*'):
+                if self._pred_kwargs and not isinstance(pred,dict): pred = pred[0]
                 pred = list(pred.values())[0]
             elif self._pred_format[:2] == 'PM':
                 pred = list(zip(*pred)) #column-major to one pmf per row
